@@ -672,6 +672,58 @@ theorem spawn_inv (o : EpochOpts W) (g : Genome W) (p : Pop W) (rs rs' : List Na
               · rw [horg]; exact hperm
 
 
+/-! ### the join of the parallel executor: whatever order the babies arrive in -/
+
+/-- **C02 / C16 (size and partition for ANY batch of fresh babies).** Speciating any list of `PopSize` organisms with
+    pairwise distinct, fresh allocation ids into a consistently allocated population and finalising yields exactly
+    `PopSize` organisms, each listed by exactly one species, no empty species, none from the previous generation,
+    unique genome ids, unique species ids. This is the argument for the parallel executor: its babies arrive over a
+    channel in an arbitrary order and are decoded into fresh objects; the theorem does not care which order. -/
+theorem speciate_finalize_popInv (o : EpochOpts W) (p1 p2 : Pop W) (babies : List (Org W))
+    (hu : UidInv p1) (hs : SpIdInv p1) (hnd : (babies.map (·.uid)).Nodup) (hfresh : ∀ u ∈ babies.map (·.uid), p1.nextUid ≤ u)
+    (hlen : babies.length = o.popSize) (hsp : speciate o p1 babies = .ok p2) :
+    let p3 := finalizeReproduction p2
+    p3.organisms.length = o.popSize ∧ p3.organisms.Nodup ∧ p3.organisms = orgUids p3.species ∧
+    (∀ s ∈ p3.species, s.orgs ≠ []) ∧ (∀ u ∈ p3.organisms, u ∉ p1.organisms) ∧ (genomeIds p3.species).Nodup ∧ SpIdInv p3 := by
+  intro p3
+  unfold speciate at hsp
+  split at hsp
+  · cases hsp
+  · obtain ⟨hperm, horg, _⟩ := speciateLoop_uids o _ _ _ hsp
+    obtain ⟨hid, _⟩ := speciateLoop_idInv o _ _ _ hsp hs
+    obtain ⟨f1, f2, f3, _⟩ := finalize_spec p2
+    have hfilter : ((orgUids p2.species).filter (fun u => !p2.organisms.contains u)).Perm (babies.map (·.uid)) := by
+      refine (hperm.filter _).trans ?_
+      rw [List.filter_append, horg]
+      have hb : (babies.map (·.uid)).filter (fun u => !p1.organisms.contains u) = babies.map (·.uid) := by
+        rw [List.filter_eq_self]
+        intro u hu'
+        simp only [Bool.not_eq_true', List.contains_eq_mem, decide_eq_false_iff_not]
+        intro hmem
+        have h1 := hu.below u hmem
+        have h2 := hfresh u hu'
+        omega
+      have ho : (orgUids p1.species).filter (fun u => !p1.organisms.contains u) = [] := by
+        rw [List.filter_eq_nil_iff]
+        intro u hu'
+        simp [hu.listed u hu']
+      rw [hb, ho, List.append_nil]
+    have hp3 : p3.organisms.Perm (babies.map (·.uid)) := by
+      show (finalizeReproduction p2).organisms.Perm _
+      rw [f1, f3]; exact hfilter
+    refine ⟨?_, hp3.nodup_iff.mpr hnd, f1, f2, ?_, (finalize_genomeIds p2).2, finalize_idInv _ hid⟩
+    · rw [hp3.length_eq, List.length_map]; exact hlen
+    · intro u hu' hmem
+      have h1 := hu.below u hmem
+      have h2 := hfresh u (hp3.mem_iff.mp hu')
+      omega
+
+/-- the order of arrival is irrelevant for the hypotheses: any permutation of a fresh duplicate-free batch is one -/
+theorem perm_batch_ok (babies babies' : List (Org W)) (n : Nat) (k : Nat) (hp : babies'.Perm babies)
+    (hnd : (babies.map (·.uid)).Nodup) (hfresh : ∀ u ∈ babies.map (·.uid), k ≤ u) (hlen : babies.length = n) :
+    (babies'.map (·.uid)).Nodup ∧ (∀ u ∈ babies'.map (·.uid), k ≤ u) ∧ babies'.length = n :=
+  ⟨((hp.map _).nodup_iff).mpr hnd, fun u hu => hfresh u ((hp.map _).mem_iff.mp hu), by rw [hp.length_eq]; exact hlen⟩
+
 /-! ### non-vacuity: a concrete population with two species satisfies the hypotheses of the epoch theorems -/
 section NonVacuity
 open GoNeat.ExactInt
